@@ -37,6 +37,15 @@ Theorem C23_no_partial_file : forall fuel base bufsz h od r t t' r',
   extract_member stream tread skip_new false fuel base bufsz h od r t = (Done, t', r') ->
   exists p data, t' = t_set p (EFile (h_mode h) data) t /\ lenN data = h_size h.
 Proof. exact no_partial_file_chunked. Qed.
+(* the same once dst has been rebound to dst/<basename(src)> — a directory root member extracted into an existing
+   directory (extract_tar_stream since /repo 1583bc4; [run_loop] carries the rebound flag, tree paths stay
+   relative to the original dst and get the <base>/ prefix, [relp]).  C23_chunking / C23_chunking_reference above
+   are about [run_loop] and therefore cover this configuration with real content, not as Unsupported. *)
+Theorem C23_no_partial_file_rebound : forall fuel base bufsz h od r t t' r',
+  bufsz <> Some 0 -> isreg (h_type h) = true ->
+  extract_member_g stream tread skip_new false true fuel base bufsz h od r t = (Done, t', r') ->
+  exists p data, t' = t_set p (EFile (h_mode h) data) t /\ lenN data = h_size h.
+Proof. exact no_partial_file_rebound. Qed.
 Theorem C23_no_partial_member : forall (s : stream) ms,
   members_chunked false s = (Done, ms) ->
   forall m, In m ms -> has_data (h_type (fst m)) = true -> lenN (snd m) = h_size (fst m).
@@ -221,3 +230,4 @@ Print Assumptions C23_roundtrip_octal_field. Print Assumptions C23_roundtrip_str
 Print Assumptions C23_symlink_target_verbatim. Print Assumptions C23_hardlink_target_relative.
 Print Assumptions C23_truncation_prefix. Print Assumptions C23_truncation_boundary.
 Print Assumptions C23_writer_chunking.
+Print Assumptions C23_no_partial_file_rebound.
